@@ -68,6 +68,11 @@ def check_swap(facts, path):
             continue
         else:
             idx = ptr[2][1]
+        # (integer width changes of the index / the value are not the swap's business: whether they fit is C14's)
+        while idx[0] == "cast" and idx[1] == "IntToInt":
+            idx = idx[2]
+        while val[0] == "cast" and val[1] == "IntToInt":
+            val = val[2]
         # enumerate idiom: idx = *item.1, val = item.0 with item = payload(Some, Enumerate::next(..))
         if idx[0] == "deref" and idx[1][0] == "field" and str(idx[1][2]) == "1" and val[0] == "field" and str(val[2]) == "0":
             if strip_site(idx[1][1]) == strip_site(val[1]) and val[1][0] == "payload":
